@@ -190,6 +190,10 @@ def reindex_database(
         for zorg_page_name, hash_ in file_to_hash.items()
         if old_file_to_hash.get(zorg_page_name) != hash_
     }
+    if not cmd.paths:
+        # The same goes for files that no longer exist (a plain reindex drops
+        # them from the DB): they might come back with their old contents.
+        changed_files |= old_file_to_hash.keys() - file_to_hash.keys()
     if changed_files & old_file_to_hash.keys():
         _write_file_hash_to_disk(
             file_hash_path,
